@@ -133,7 +133,15 @@ const alphabet = "/:.AaCcDdEeFfGgHhIiLlMmNnOoPpRrSsTtUuVvWwXxYy0134 \t\n\x00\xff
 // separators glued on, 256 more bytes (a length kept in 8 bits), and one character replaced by a
 // multi-byte character whose code point ends in the same byte (a rune truncated to a byte).
 // Disguises exposes disguises (C09: offered right after the real token has been accepted).
-func Disguises(a string) []string { return disguises(a) }
+// The exported list also has the token followed by 65,536 bytes (a length kept in 16 bits, or a key built from the
+// first bytes and the low half of the length); these stay out of the pools, whose every member is substituted at
+// every position of whole vectors.
+func Disguises(a string) []string {
+	if a == "" {
+		return nil
+	}
+	return append(disguises(a), a+strings.Repeat("\x00", 65536), a+strings.Repeat("Q", 65536))
+}
 
 func disguises(a string) []string {
 	if a == "" {
@@ -147,6 +155,18 @@ func disguises(a string) []string {
 	}
 	out := []string{"\x00" + a, "\x00\x00" + a, a + "\x00", a + "\x00\x00", pad(4), pad(8), string([]byte{a[0] | 0x80}) + a[1:], a + a, a + "/", "/" + a, a + ":", ":" + a,
 		a + strings.Repeat("\x00", 256), a + strings.Repeat("Q", 256), a + strings.Repeat(a, 256/len(a))}
+	// two neighbouring bytes changed together so that a key packed with fewer than 8 bits per character
+	// (k = k<<7 + c, <<6, <<5) comes out the same: one unit moved between a character and the next
+	for pos := 0; pos+1 < len(a); pos++ {
+		for _, w := range []int{32, 64, 128} {
+			if hi, lo := int(a[pos])-1, int(a[pos+1])+w; hi >= 0 && lo <= 255 {
+				out = append(out, a[:pos]+string([]byte{byte(hi), byte(lo)})+a[pos+2:])
+			}
+			if hi, lo := int(a[pos])+1, int(a[pos+1])-w; hi <= 255 && lo >= 0 {
+				out = append(out, a[:pos]+string([]byte{byte(hi), byte(lo)})+a[pos+2:])
+			}
+		}
+	}
 	// same length, one character replaced (a key built from a prefix or a suffix of the token)
 	for pos := 0; pos < len(a); pos++ {
 		for _, c := range []byte{'X', 'Q', 'n', 0, '.'} {
